@@ -17,7 +17,8 @@ RULE = ("2-6 recording systems with priorities 0..3 (ties), one of which calls m
         "is_running()/bool(model) are False from the moment complete() returns (also observed inside the completer) forever; "
         "timestep, agents and component listings never change after the completing call returned; throw_error=True raises "
         "ModelCompleteError every time, the other requests return silently. Non-trivial: the completer is not last in the order "
-        "(>= 1 system was due after it) and >= 2 later advance requests of different kinds. Distinct = digest of the case.")
+        "(>= 1 system was due after it) and >= 2 later advance requests of different kinds. Distinct = digest of the case."
+        " Added in rounds 19-24: a third of the systems (the completer among them) are falsy objects; the error flag is also passed in its documented position.")
 ASSUMPTIONS = ["one case in ten registers the systems with a second SystemManager(model) and drives that one: 'no system runs again' is read as covering every scheduler of the completed model",
                "all systems use the always-on window, so every system after the completer was due in the completing timestep"]
 
